@@ -1572,6 +1572,15 @@ def recursion(ctx, R):
             if g_ is not None:
                 tops.add(g_.qual)
         kkey = "recursive component {%s}" % ", ".join(sorted(tops))
+        # the recorded findings name the traversals that recursed when they were recorded; if some of those have since been
+        # made iterative, what is left of the component is still that finding (anything outside it is a new one)
+        from ..report import load_known
+
+        for kf in (load_known() or {}).get("open", []) if isinstance(load_known(), dict) else (load_known() or []):
+            if kf.get("rule") == "C11.RECURSION" and kf.get("key", "").startswith("recursive component {"):
+                recorded = set(x.strip() for x in kf["key"][len("recursive component {"):-1].split(","))
+                if tops and tops <= recorded and len(tops) >= 2 and kf["key"] != kkey:
+                    kkey = kf["key"]
         R.bad("C11.RECURSION", kkey, P.funcs[sorted(comp)[0].split("@")[0]].loc(), "block traversal is recursive (%d frames per level): clusters beyond ~%d labels exhaust the interpreter's recursion limit" % (frames, (LIMIT - 20) // max(frames, 1)))
         entry = depth_to(comp)
         need = entry + frames * (CLUSTER + WALLS)
